@@ -39,7 +39,17 @@ type kase struct {
 	key       string
 	init      [3]string
 	ops       []string
+	nodes     []int // node of each call (nil = all on node 0)
 	sch       []entry
+}
+
+func (k *kase) twoNode() bool {
+	for _, n := range k.nodes {
+		if n != 0 {
+			return true
+		}
+	}
+	return false
 }
 
 func b01(b bool) string {
@@ -77,6 +87,12 @@ func (k *kase) header() string {
 	for _, o := range k.ops {
 		sb.WriteString(" " + o)
 	}
+	if k.twoNode() {
+		fmt.Fprintf(&sb, " nodes %d", len(k.nodes))
+		for _, n := range k.nodes {
+			fmt.Fprintf(&sb, " %d", n)
+		}
+	}
 	return sb.String()
 }
 
@@ -85,9 +101,12 @@ func (k *kase) line(sch []entry) string {
 	sb.WriteString(k.header())
 	fmt.Fprintf(&sb, " sch %d", len(sch))
 	for _, e := range sch {
-		if e.tag == "" {
+		switch {
+		case e.tag == "":
 			fmt.Fprintf(&sb, " %d", e.tid)
-		} else {
+		case strings.HasPrefix(e.tag, "E"):
+			fmt.Fprintf(&sb, " E%d%s", e.tid, e.tag[1:]) // eviction: E<node><c|s>
+		default:
 			fmt.Fprintf(&sb, " %d!%s", e.tid, e.tag)
 		}
 	}
@@ -146,6 +165,20 @@ func parseCase(line string) (*kase, error) {
 	if err != nil {
 		return nil, err
 	}
+	if len(ts) > 0 && ts[0] == "nodes" {
+		var ns []string
+		ns, ts, err = takeCounted(ts[1:])
+		if err != nil {
+			return nil, err
+		}
+		for _, n := range ns {
+			v, err := strconv.Atoi(n)
+			if err != nil || v < 0 || v > 1 {
+				return nil, errors.New("bad node")
+			}
+			k.nodes = append(k.nodes, v)
+		}
+	}
 	if len(ts) < 1 || ts[0] != "sch" {
 		return nil, errors.New("sch expected")
 	}
@@ -155,6 +188,10 @@ func parseCase(line string) (*kase, error) {
 		return nil, err
 	}
 	for _, e := range es {
+		if strings.HasPrefix(e, "E") && len(e) == 3 {
+			k.sch = append(k.sch, entry{int(e[1] - '0'), "E" + e[2:]})
+			continue
+		}
 		parts := strings.Split(e, "!")
 		tid, err := strconv.Atoi(parts[0])
 		if err != nil {
@@ -188,7 +225,21 @@ func okOr(err error) string {
 	return "ok"
 }
 
-func doOp(h *hybrid.Storage, key, op string) string {
+// held keeps what a read returned, to look at it again after everything else has run (aliasing probe).
+type held struct {
+	v    interface{}
+	seen string
+}
+
+func hashSplit(key string) (string, string) {
+	i := strings.LastIndexByte(key, ':')
+	if i < 0 {
+		return key, ""
+	}
+	return key[:i], key[i+1:]
+}
+
+func doOp(h *hybrid.Storage, key, op string, keep *held) string {
 	parts := strings.Split(op, ":")
 	switch parts[0] {
 	case "get":
@@ -196,7 +247,30 @@ func doOp(h *hybrid.Storage, key, op string) string {
 		if err != nil {
 			return errStr(err)
 		}
+		keep.v, keep.seen = v, decVal(v)
 		return "v=" + decVal(v)
+	case "setnx":
+		v, _ := encVal(parts[1])
+		ttl, _ := strconv.ParseInt(parts[2], 10, 64)
+		b, err := h.SetNX(key, v, time.Duration(ttl))
+		if err != nil {
+			return errStr(err)
+		}
+		return "b=" + b01(b)
+	case "hset":
+		v, _ := encVal(parts[1])
+		base, field := hashSplit(key)
+		return okOr(h.SetHash(base, field, v))
+	case "hget":
+		base, field := hashSplit(key)
+		v, err := h.GetHash(base, field)
+		if err != nil {
+			return errStr(err)
+		}
+		return "v=" + decVal(v)
+	case "hdel":
+		base, field := hashSplit(key)
+		return okOr(h.DeleteHash(base, field))
 	case "ex":
 		b, err := h.Exists(key)
 		if err != nil {
@@ -206,6 +280,9 @@ func doOp(h *hybrid.Storage, key, op string) string {
 	case "set":
 		v, _ := encVal(parts[1])
 		ttl, _ := strconv.ParseInt(parts[2], 10, 64)
+		if l, ok := v.([]interface{}); ok {
+			return okOr(h.SetList(key, l, time.Duration(ttl))) // the list entry point of Set
+		}
 		return okOr(h.Set(key, v, time.Duration(ttl)))
 	case "del":
 		return okOr(h.Delete(key))
@@ -217,6 +294,7 @@ func doOp(h *hybrid.Storage, key, op string) string {
 		if l == nil {
 			l = []interface{}{}
 		}
+		keep.v, keep.seen = l, decVal(l)
 		return "v=" + decVal(l)
 	case "app":
 		return okOr(h.AppendToList(key, "e"+parts[1]))
@@ -247,6 +325,9 @@ func replayChooser(sch []entry) chooser {
 		if i < len(sch) {
 			e := sch[i]
 			i++
+			if strings.HasPrefix(e.tag, "E") {
+				return nil, fmt.Sprintf("E%d%s", e.tid, e.tag[1:])
+			}
 			for _, t := range parked {
 				if t.tid == e.tid {
 					return t, e.tag
@@ -267,15 +348,10 @@ type result struct {
 func execCase(k *kase, choose chooser, replayLen int) result {
 	ctx, cancel := context.WithCancel(context.Background())
 	defer cancel()
-	cInner := memory.New(ctx)
+	two := k.twoNode()
+	cInner := []*memory.Storage{memory.New(ctx), memory.New(ctx)} // local cache of node 0 / node 1
 	sInner := memory.New(ctx)
-	cfg := hybrid.DefaultConfig()
-	if k.custom {
-		cfg.PersistentPrefixes, cfg.SharedPrefixes, cfg.SharedPersistentPrefixes = k.P, k.S, k.SP
-	}
-	cfg.EnablePersistent = k.pe
 	sc := newSchedLater()
-	cache := &gCache{name: "c", s: sc, inner: cInner}
 	var shared types.CacheStorage
 	if k.sh {
 		shared = &gCache{name: "s", s: sc, inner: sInner}
@@ -285,9 +361,22 @@ func execCase(k *kase, choose chooser, replayLen int) result {
 	if k.pe {
 		pst = pers
 	}
-	h := hybrid.NewWithSharedCache(ctx, cache, shared, pst, cfg)
+	// one facade per node, on the same shared cache and persistent tier
+	var hs []*hybrid.Storage
+	for n := 0; n < 2; n++ {
+		cfg := hybrid.DefaultConfig()
+		if k.custom {
+			cfg.PersistentPrefixes, cfg.SharedPrefixes, cfg.SharedPersistentPrefixes = k.P, k.S, k.SP
+		}
+		cfg.EnablePersistent = k.pe
+		hs = append(hs, hybrid.NewWithSharedCache(ctx, &gCache{name: "c", s: sc, inner: cInner[n]}, shared, pst, cfg))
+		if !two {
+			break
+		}
+	}
+	h := hs[0]
 	if v, ok := encVal(k.init[0]); ok {
-		cInner.Set(k.key, v, 0)
+		cInner[0].Set(k.key, v, 0)
 	}
 	if v, ok := encVal(k.init[1]); ok && k.sh {
 		sInner.Set(k.key, v, 0)
@@ -296,9 +385,25 @@ func execCase(k *kase, choose chooser, replayLen int) result {
 		pers.m[k.key] = v
 	}
 	sc.arm()
-	for _, op := range k.ops {
+	keeps := make([]*held, len(k.ops))
+	for i, op := range k.ops {
 		op := op
-		sc.start(func() string { return doOp(h, k.key, op) })
+		hn := h
+		if i < len(k.nodes) && k.nodes[i] == 1 {
+			hn = hs[1]
+		}
+		keep := &held{}
+		keeps[i] = keep
+		sc.start(func() string { return doOp(hn, k.key, op, keep) })
+	}
+	// an eviction (TTL expiry, cache restart) of the key in one cache tier: an environment step
+	evict := func(e entry) {
+		if e.tag == "Es" {
+			sInner.Delete(k.key)
+		} else if e.tid >= 0 && e.tid < 2 {
+			cInner[e.tid].Delete(k.key)
+		}
+		sc.stutter()
 	}
 	var realized []entry
 	status := ""
@@ -310,9 +415,14 @@ func execCase(k *kase, choose chooser, replayLen int) result {
 		parked := sc.parked()
 		if len(parked) == 0 {
 			if len(realized) < replayLen {
-				// the replayed schedule continues after everything has returned: stutters
-				realized = append(realized, k.sch[len(realized)])
-				sc.stutter()
+				// the replayed schedule continues after everything has returned: stutters / evictions
+				e := k.sch[len(realized)]
+				realized = append(realized, e)
+				if strings.HasPrefix(e.tag, "E") {
+					evict(e)
+				} else {
+					sc.stutter()
+				}
 				continue
 			}
 			if sc.blockedLeft() {
@@ -325,6 +435,12 @@ func execCase(k *kase, choose chooser, replayLen int) result {
 			break
 		}
 		t, tag := choose(parked)
+		if t == nil && len(tag) == 3 && tag[0] == 'E' {
+			e := entry{int(tag[1] - '0'), "E" + tag[2:]}
+			realized = append(realized, e)
+			evict(e)
+			continue
+		}
 		if t == nil {
 			realized = append(realized, k.sch[len(realized)])
 			sc.stutter()
@@ -377,6 +493,10 @@ func execCase(k *kase, choose chooser, replayLen int) result {
 		res := "-"
 		if t.done {
 			res = t.res
+			// look again at what a read handed out: nobody may have changed it behind the caller's back
+			if t.tid < len(keeps) && keeps[t.tid].seen != "" && decVal(keeps[t.tid].v) != keeps[t.tid].seen {
+				res = "aliased:" + keeps[t.tid].seen + ">" + decVal(keeps[t.tid].v)
+			}
 		} else if t.spawned && t.first > 0 {
 			res = "ok" // a goroutine of the code under test that ran to its end
 		}
@@ -399,24 +519,58 @@ func execCase(k *kase, choose chooser, replayLen int) result {
 	if v, ok := pers.m[k.key]; ok && k.pe {
 		pfin = decVal(v)
 	}
-	fmt.Fprintf(&sb, " fin %s %s %s", fin(cInner, true), fin(sInner, k.sh), pfin)
+	c1fin := fin(cInner[1], true)
+	fmt.Fprintf(&sb, " fin %s %s %s", fin(cInner[0], true), fin(sInner, k.sh), pfin)
 	fg, err := h.Get(k.key)
 	if err != nil {
 		fmt.Fprintf(&sb, " fget %s", errStr(err))
 	} else {
 		fmt.Fprintf(&sb, " fget v=%s", decVal(fg))
 	}
+	if two {
+		fmt.Fprintf(&sb, " c1 %s", c1fin)
+		fg1, err := hs[1].Get(k.key)
+		if err != nil {
+			fmt.Fprintf(&sb, " fget1 %s", errStr(err))
+		} else {
+			fmt.Fprintf(&sb, " fget1 v=%s", decVal(fg1))
+		}
+	}
 	fmt.Fprintf(&sb, " tr %d", len(trace))
 	for _, e := range trace {
 		sb.WriteString(" " + e)
 	}
-	h.Close()
+	for _, hh := range hs {
+		hh.Close()
+	}
 	return result{line: k.line(realized), obs: sb.String(), key: findingKey(k, thrs, trace)}
 }
 
 // findingKey tags the witnesses of the recorded findings (KNOWN_FINDINGS.txt): a failing cache-tier
 // write that Set swallowed, a failing cache-tier read that was reported as "absent".
 func findingKey(k *kase, thrs []*thr, trace []string) string {
+	if k.twoNode() {
+		// the key lock and the local cache are per node: cross-node races are recorded findings
+		for _, op := range k.ops {
+			if strings.HasPrefix(op, "app") || strings.HasPrefix(op, "rem") {
+				return "cross-node-list-update"
+			}
+		}
+		local, persisted := false, false
+		for _, e := range trace {
+			if f := strings.Split(e, "/"); len(f) == 4 {
+				local = local || f[1] == "c"
+				persisted = persisted || f[1] == "p"
+			}
+		}
+		if persisted && local {
+			return "cross-node-local-cache"
+		}
+		if persisted {
+			return "cross-node-writeback"
+		}
+		return "" // pure shared data: two nodes must behave like one (C14_two_node_shared)
+	}
 	lastOf := map[int]int{}
 	for i, e := range trace {
 		tid, _ := strconv.Atoi(e[:strings.IndexByte(e, '/')])
